@@ -9,6 +9,9 @@ Simulation.pre_timestep record one event per spec action with the post-state pro
 (d) TLC validates the recorded traces against FtpTrace.tla; (e) a shipped scenario (data_manipulation.yaml, in the
 thorough tier also uc7_config.yaml) is stepped with random / scripted blue actions and scripted client transfers and
 projected onto its FTP server and clients (the reachability between them is left "unknown" there).
+Part of the behaviours and a few directed sequences are replayed on a thin variant  c1 -- s  (one 100 Mbit wire, files of
+60 Mbit and of more than the bandwidth, several transfers per timestep): the sender's network interface then refuses
+data frames ("Link is at capacity"), which is recorded as the environment fault SendFail of Ftp.tla.
 Run: ./check EXT-ftp"""
 from __future__ import annotations
 
@@ -22,9 +25,9 @@ from . import common, scenarios, tlc, tracer
 SERVER = "s"
 HOSTS = {"c1": "c1", "c2": "c2", "s": "s"}
 SERVER_IP = "192.168.2.2"
-MC_ACTIONS = ("MBegin", "MSrvPort", "MSrvStor", "MSrvQuit", "MCliData", "MSrvRetr", "MReturn", "MSvcReq", "MPower",
+MC_ACTIONS = ("MBegin", "MSrvPort", "MSrvStor", "MSrvQuit", "MCliData", "MSrvRetr", "MReturn", "MSendFail", "MSvcReq", "MPower",
               "MBlock", "MCreateFile", "MDeleteFile", "MTick")
-REPLAY_EVENTS = ("Begin", "SrvPort", "SrvStor", "SrvQuit", "CliData", "SrvRetr", "Return", "SvcReq", "Power", "Block",
+REPLAY_EVENTS = ("Begin", "SrvPort", "SrvStor", "SrvQuit", "CliData", "SrvRetr", "SendFail", "Return", "SvcReq", "Power", "Block",
                  "CreateFile", "DeleteFile", "Tick")
 DEFAULTS = {"c": "", "node": "", "kind": "", "src": "", "dst": "", "p": "", "size": 0, "health": "", "verb": "",
             "flag": False, "ok": False, "st": ""}
@@ -48,6 +51,20 @@ def net_cfg() -> Dict[str, Any]:
     ]
     links = [S.link("c1", 1, "sw", 1), S.link("c2", 1, "sw", 2), S.link("sw", 3, "r", 1), S.link("s", 1, "r", 2)]
     return S.base_cfg(nodes, links)
+
+
+THIN_SERVER_IP = "192.168.1.3"
+BIG = 7_500_000        # bytes: 60 Mbit, one such transfer fits on the 100 Mbit wire in a timestep, a second does not
+OVERSIZE = 13_000_000  # more than the wire carries in a timestep
+
+
+def thin_cfg() -> Dict[str, Any]:
+    """c1 and s on one wire of the default bandwidth: whatever the wire cannot carry is refused by the sender's interface."""
+    S = scenarios
+    dur = {"start_up_duration": 0, "shut_down_duration": 0}
+    nodes = [S.host("c1", "192.168.1.2", "computer", **dur),
+             S.host("s", THIN_SERVER_IP, "server", services=[{"type": "ftp-server"}], **dur)]
+    return S.base_cfg(nodes, [S.link("c1", 1, "s", 1)])
 
 
 def split(path: str):
@@ -177,6 +194,8 @@ def install():
     if _INSTALLED[0]:
         return
     _INSTALLED[0] = True
+    from primaite.simulator.network.hardware.base import WiredNetworkInterface
+    from primaite.simulator.network.protocols.ftp import FTPPacket
     from primaite.simulator.sim_container import Simulation
     from primaite.simulator.system.services.ftp.ftp_client import FTPClient
     from primaite.simulator.system.services.ftp.ftp_server import FTPServer
@@ -238,6 +257,27 @@ def install():
         w.emit("CliData", c=c, st=payload.status_code.name if payload.status_code is not None else "NONE")
 
     tracer.wrap(FTPClient, "_process_ftp_command", after=after_cli)
+
+    def after_nic_send(nic, tok, ret, exc, *a, **k):
+        # the environment fault SendFail: the sender's interface refused an FTP frame (link at capacity / disabled)
+        w = _CUR[0]
+        if w is None or exc is not None or ret or not (w.strict or w.in_call):
+            return
+        frame = k.get("frame", a[0] if a else None)
+        payload = getattr(frame, "payload", None)
+        if not isinstance(payload, FTPPacket):
+            return
+        node = getattr(nic, "_connected_node", None)
+        who = next((m for m, nd in w.node.items() if nd is node), None)
+        if who is None:
+            return
+        if who == SERVER:
+            ip = str(frame.ip.dst_ip_address)
+            w.emit("SendFail", c=w.ip2name.get(ip, ip), verb="server", st=payload.ftp_command.name)
+        else:
+            w.emit("SendFail", c=who, verb="client", st=payload.ftp_command.name)
+
+    tracer.wrap(WiredNetworkInterface, "send_frame", after=after_nic_send)
 
     def before_tick(sim, *a, **k):
         w = _CUR[0]
@@ -315,21 +355,45 @@ def directed() -> List[Dict[str, Any]]:
     ]
 
 
-def run_steps(steps: List[List[Any]], clients: List[str], rng: random.Random, avoid: bool, meta: Dict[str, Any]) -> Dict[str, Any]:
+def directed_thin() -> List[Dict[str, Any]]:
+    """Transfers whose data frame cannot leave the sender: the wire has no capacity left in the timestep / is too small."""
+    A, B = "d/a.txt", "e/b.pdf"
+    T = ["tick"]
+    return [
+        {"name": "two-big-retrievals-in-one-timestep", "steps": [["create", "s", B, BIG], T, ["begin", "c1", "retr", B, "k/1.pdf"],
+                                                                 ["begin", "c1", "retr", B, "k/2.pdf"], ["begin", "c1", "retr", B, "k/3.pdf"], T,
+                                                                 ["begin", "c1", "retr", B, "k/2.pdf"], T, ["begin", "c1", "retr", "e/none.pdf", "k/9.pdf"]]},
+        {"name": "two-big-stores-in-one-timestep", "steps": [T, ["begin", "c1", "send", A, "e/1.txt"], ["begin", "c1", "send", A, "e/2.txt"],
+                                                             ["begin", "c1", "send", A, "e/3.txt"], T, ["begin", "c1", "send", A, "e/2.txt"], T]},
+        {"name": "file-larger-than-the-wire", "steps": [["create", "s", "e/huge.mp4", OVERSIZE], ["create", "c1", "d/huge.mp4", OVERSIZE], T,
+                                                        ["begin", "c1", "retr", "e/huge.mp4", "k/huge.mp4"], T,
+                                                        ["begin", "c1", "send", "d/huge.mp4", "e/up.mp4"], T,
+                                                        ["create", "s", "e/small.txt", 900], ["begin", "c1", "retr", "e/small.txt", "k/small.txt"]]},
+        {"name": "store-then-fetch-in-one-timestep", "steps": [T, ["begin", "c1", "send", A, "e/1.txt"], ["begin", "c1", "retr", "e/1.txt", "k/back.txt"],
+                                                               ["create", "s", "e/small.txt", 900], ["begin", "c1", "retr", "e/small.txt", "k/small.txt"], T,
+                                                               ["begin", "c1", "retr", "e/1.txt", "k/back.txt"], ["begin", "c1", "send", A, "e/4.txt"]]},
+    ]
+
+
+def run_steps(steps: List[List[Any]], clients: List[str], rng: random.Random, avoid: bool, meta: Dict[str, Any],
+              thin: bool = False) -> Dict[str, Any]:
     from ipaddress import IPv4Address
 
     from primaite.simulator.file_system.file_system_item_abc import FileSystemItemHealthStatus as H
 
-    game = scenarios.build(net_cfg())
+    if thin:
+        clients = ["c1"]
+    game = scenarios.build(thin_cfg() if thin else net_cfg())
     w = World(game, {m: HOSTS[m] for m in clients + [SERVER]}, "open", meta)
-    # the initial files of MC_Ftp.Init
-    for m, (size, health) in {"c1": (1, H.GOOD), "c2": (2, H.CORRUPT)}.items():
+    # the initial files of MC_Ftp.Init (thin variant: files that load the wire)
+    for m, (size, health) in {"c1": (BIG if thin else 1, H.GOOD), "c2": (2, H.CORRUPT)}.items():
         if m in w.node:
             f = w.node[m].file_system.create_file("a.txt", size=size, folder_name="d")
             f.health_status = health
     _CUR[0] = w
     w.start()
-    ip = IPv4Address(SERVER_IP)
+    sip = THIN_SERVER_IP if thin else SERVER_IP
+    ip = IPv4Address(sip)
     for st in steps:
         kind = st[0]
         n_before = len(w.trace["ev"])
@@ -352,7 +416,7 @@ def run_steps(steps: List[List[Any]], clients: List[str], rng: random.Random, av
                     w.emit("Begin", c=c, kind="send", src=src, dst=dst)
                     try:
                         resp = w.req(c, "service", "ftp-client", "send",
-                                     {"dest_ip_address": SERVER_IP, "src_folder_name": sf, "src_file_name": sn,
+                                     {"dest_ip_address": sip, "src_folder_name": sf, "src_file_name": sn,
                                       "dest_folder_name": df, "dest_file_name": dn})
                     finally:
                         w.declared = False
@@ -377,6 +441,8 @@ def run_steps(steps: List[List[Any]], clients: List[str], rng: random.Random, av
                 if resp.status == "success" and now_on != was_on:
                     w.emit("Power", node=m, flag=now_on)
             elif kind == "block":
+                if thin:
+                    continue  # no router on the single wire
                 if w.net == "open":
                     resp = w.req("r", "acl", "add_rule", "DENY", "TCP", "ALL", "NONE", "ALL", "ALL", "NONE", "FTP", BLOCK_POS)
                     new = "blocked"
@@ -388,12 +454,13 @@ def run_steps(steps: List[List[Any]], clients: List[str], rng: random.Random, av
                 w.net = new
                 w.emit("Block", flag=new == "blocked")
             elif kind == "create":
-                _, m, p = st
+                m, p = st[1], st[2]
                 if m not in w.node or w.has(m, p):
                     continue
                 fo, name = split(p)
-                w.node[m].file_system.create_file(name, size=3, folder_name=fo)
-                w.emit("CreateFile", node=m, p=p, size=3, health="GOOD")
+                size = st[3] if len(st) > 3 else ((BIG if rng.random() < 0.8 else OVERSIZE) if thin else 3)
+                w.node[m].file_system.create_file(name, size=size, folder_name=fo)
+                w.emit("CreateFile", node=m, p=p, size=size, health="GOOD")
             elif kind == "delete":
                 _, m, p = st
                 if m not in w.node or not w.has(m, p):
@@ -503,6 +570,9 @@ def sig_fn(tr, event, stuck) -> Dict[str, Any]:
     kind = call.get("kind", "")
     if "OnlyRunningClient" in fail:
         return {"kind": kind, "clause": "OnlyRunningClient", "finding": "exchange-by-a-client-that-is-not-running"}
+    if "RetrOkOnlyIfDelivered" in fail and call.get("fault"):
+        return {"kind": kind, "clause": "RetrOkOnlyIfDelivered", "event": "SrvRetr",
+                "finding": "retr-ok-although-the-data-frame-never-left-the-server"}
     if "RetrOkOnlyIfDelivered" in fail or ("ReturnTrueIffTransferred" in fail and kind == "retr" and event.get("ok")):
         return {"kind": kind, "clause": "RetrOkOnlyIfDelivered", "event": "SrvRetr", "finding": "retr-ok-without-delivery"}
     c = event.get("c") or call.get("c") or ""
@@ -543,6 +613,18 @@ def main(tier: str, seed: int) -> int:
             tr = run_steps(d["steps"], ["c1", "c2"], rng, avoid=False, meta={"source": "directed", "name": d["name"]})
             traces.append(tr)
             chk.add_case(tr["stimulus"])
+    # the thin variant: the same alphabet on one wire with files that load it (SendFail)
+    thin_behs = [b for b in behs if any(st["action"] == "MBegin" for st in b[1:])][: (16 if quick else 160)]
+    for i, beh in enumerate(thin_behs):
+        tr = run_steps([st for st in stimulus_of(beh) if len(st) < 2 or st[1] != "c2"], ["c1"], rng, avoid=False,
+                       meta={"source": "tlc-simulate", "index": i, "variant": "thin"}, thin=True)
+        traces.append(tr)
+        chk.add_case(["thin"] + tr["stimulus"], nontrivial=any(s[0] == "begin" for s in tr["stimulus"]))
+    for d in directed_thin():
+        for rep in range(1 if quick else 3):
+            tr = run_steps(d["steps"], ["c1"], rng, avoid=False, meta={"source": "directed", "name": d["name"], "variant": "thin"}, thin=True)
+            traces.append(tr)
+            chk.add_case(["thin"] + tr["stimulus"])
     phases["replay"] = round(time.time() - t0, 1)
     f_val = pool.submit(tlc.validate, "FtpTrace", traces, chunk=40 if quick else 120)
 
@@ -603,6 +685,8 @@ def main(tier: str, seed: int) -> int:
                          "events_scenario": sum(len(t["ev"]) for t in sc_traces)}
     chk.cov["calls_replay_[made,true]"] = {k: [sum(t["meta"]["calls"][k][j] for t in traces) for j in (0, 1)] for k in ("send", "retr")}
     chk.cov["calls_scenario_[made,true]"] = sc_calls
+    chk.cov["calls_refused_by_sender_interface"] = sum(
+        1 for t in traces for i, e in enumerate(t["ev"]) if e["ev"] == "SendFail" and (i == 0 or t["ev"][i - 1]["ev"] != "SendFail"))
     chk.cov["phase_end_s"] = phases
     chk.sample({"cfg": traces[0]["cfg"], "events": traces[0]["ev"][:3]})
     chk.assumptions += [
@@ -613,5 +697,7 @@ def main(tier: str, seed: int) -> int:
         "scenario-scale runs leave the reachability between client and server unknown: a failed call is always "
         "explainable there, a call that returns True must satisfy every clause",
         "the type of a created file is only pinned when the destination keeps the extension of the source",
+        "SendFail (the sender's own interface refuses a frame) is observed at WiredNetworkInterface.send_frame of the hosts; "
+        "frames lost further along the path are not modelled (the thin variant has one wire, the routed one tiny files)",
     ]
     return chk.finish()
